@@ -11,7 +11,7 @@ def scenarios(rng: random.Random, n: int, thorough: bool):
     kinds = ["none", "tail", "head", "cross", "multi", "tail", "strongtail"]
     for i in range(n):
         kind = kinds[i % len(kinds)]
-        p = shots.gen_shot(rng, winds=0, slow=(kind == "strongtail"))
+        p = shots.gen_shot(rng, winds=0, slow=(kind == "strongtail"), cant=(i % 4 == 1))
         if kind == "strongtail":
             # a slow projectile in a tail wind: ground advance per iteration well above the air-relative step
             p["mv_fps"] = rng.choice([300.0, 420.0, 640.0])
